@@ -70,3 +70,24 @@ int64_t lane_counter_good(const int16_t* v, int64_t count, int16_t key) {
     }
     return total;
 }
+
+/* ---- R23 masked tail: an unmasked compare on a zero-masked load lets the empty lanes answer */
+__attribute__((target("avx512f,avx512bw,avx512vl")))
+long masked_tail_bad(const int32_t* values, long count, int32_t first) {
+    __m512i target = _mm512_set1_epi32(first);
+    __mmask16 tail = (__mmask16)((1u << count) - 1);
+    __m512i v = _mm512_maskz_loadu_epi32(tail, values);
+    __mmask16 cmp = _mm512_cmpeq_epi32_mask(v, target);
+    if (cmp != tail) return __builtin_ctz(~(unsigned)cmp);
+    return count;
+}
+__attribute__((target("avx512f,avx512bw,avx512vl")))
+long masked_tail_good(const int32_t* values, long count, int32_t first) {
+    __m512i target = _mm512_set1_epi32(first);
+    __mmask16 tail = (__mmask16)((1u << count) - 1);
+    __m512i v = _mm512_maskz_loadu_epi32(tail, values);
+    __mmask16 cmp = _mm512_cmpeq_epi32_mask(v, target);
+    cmp &= tail;
+    if ((cmp & tail) != tail) return __builtin_ctz(~(unsigned)(cmp & tail));
+    return count;
+}
